@@ -39,16 +39,45 @@ Section M.
     - apply Z.mod_small. lia.
   Qed.
 
+  (* headers 27, 28, 31, 32 (recovery ids 0 and 1): the same recovery as verification *)
   Theorem recover_pubkey_agrees msg h rs dg : msg <> [] -> length rs = 64%nat -> 27 <= h <= 34 ->
+    (if 31 <=? h then h - 31 else h - 27) < 2 ->
     message_digest sha256 msg = Some dg ->
     recover_pubkey sha256 p n add G inv sqrts msg (h :: rs)
     = recover p n add G inv sqrts (be_val dg) (be_val (firstn 32 rs)) (be_val (skipn 32 rs)) (if 31 <=? h then h - 31 else h - 27).
   Proof.
-    intros Hm Hl Hh Hd. unfold recover_pubkey.
+    intros Hm Hl Hh Hid Hd. unfold recover_pubkey.
     destruct msg as [|m0 msg']; [congruence|].
     cbn [length Nat.eqb]. rewrite Hl. change (Nat.eqb 65 65) with true. cbn [negb].
     destruct (Z.leb_spec 27 h), (Z.leb_spec h 34); try lia. cbn [andb negb].
-    rewrite Hd. cbn [obind]. rewrite recid_mod4 by lia. reflexivity.
+    rewrite Hd. cbn [obind]. cbv zeta. rewrite recid_mod4 by lia.
+    destruct ((if 31 <=? h then h - 31 else h - 27) <? 2) eqn:E; [reflexivity|lia].
+  Qed.
+
+  (* headers 29, 30, 33, 34 (recovery ids 2 and 3, R.x = r + n): a key is returned exactly when r + n is a field
+     element, verification's recovery yields that key, and the key verifies the signature *)
+  Theorem recover_pubkey_high msg h rs dg Q : msg <> [] -> length rs = 64%nat -> 27 <= h <= 34 ->
+    2 <= (if 31 <=? h then h - 31 else h - 27) ->
+    message_digest sha256 msg = Some dg ->
+    (recover_pubkey sha256 p n add G inv sqrts msg (h :: rs) = Some Q <->
+     be_val (firstn 32 rs) + n < p /\
+     recover p n add G inv sqrts (be_val dg) (be_val (firstn 32 rs)) (be_val (skipn 32 rs)) (if 31 <=? h then h - 31 else h - 27) = Some Q /\
+     ecdsa_verify n add G inv Q (be_val dg) (be_val (firstn 32 rs)) (be_val (skipn 32 rs)) = true).
+  Proof.
+    intros Hm Hl Hh Hid Hd. unfold recover_pubkey.
+    destruct msg as [|m0 msg']; [congruence|].
+    cbn [length Nat.eqb]. rewrite Hl. change (Nat.eqb 65 65) with true. cbn [negb].
+    destruct (Z.leb_spec 27 h), (Z.leb_spec h 34); try lia. cbn [andb negb].
+    rewrite Hd. cbn [obind]. cbv zeta. rewrite recid_mod4 by lia.
+    set (rid := if 31 <=? h then h - 31 else h - 27) in *.
+    destruct (rid <? 2) eqn:E; [lia|].
+    destruct (p <=? be_val (firstn 32 rs) + n) eqn:Ep.
+    - split; [discriminate|intros [Hlt _]; lia].
+    - destruct (recover p n add G inv sqrts (be_val dg) (be_val (firstn 32 rs)) (be_val (skipn 32 rs)) rid) as [Q'|] eqn:ER.
+      + destruct (ecdsa_verify n add G inv Q' (be_val dg) (be_val (firstn 32 rs)) (be_val (skipn 32 rs))) eqn:EV.
+        * split; [intros [= <-]; repeat split; [lia|assumption]|intros (_ & [= <-] & _); reflexivity].
+        * split; [discriminate|intros (_ & [= <-] & HV); congruence].
+      + split; [discriminate|intros (_ & HF & _); discriminate].
   Qed.
 
   (* ---------------- 4. soundness of verify_message ---------------- *)
